@@ -572,6 +572,14 @@ pub fn eval_pair(p: &Pair) -> (Vec<Finding>, String) {
 }
 
 pub fn run(ctx: &Ctx) -> Result<Run, String> {
+    let inst_stats = {
+        // consent is per ceremony: whatever an earlier ceremony on the same authenticator went
+        // through (approved and then failed at the counter write, denied, dropped, a panic in
+        // user-supplied code), the next one asks again and obeys the answer
+        use super::inst::{self, IOp};
+        let alphabet = [IOp::GetUpdateFails, IOp::Denied(1), IOp::Get { who: 0, prf: false, silent: false }, IOp::Cancelled(1), IOp::Panics { op: 1, what: 0 }, IOp::Panics { op: 1, what: 2 }, IOp::Denied(0), IOp::Make { rk: true, prf: false }];
+        inst::sweep(&alphabet, ctx.tier.pick(3, 4), &[0, 1], ctx.threads, "instance")
+    };
     let cs = cases();
     let stats = par::sweep_cases(&cs, ctx.threads, |c, st| {
         let (fs, outcomes) = eval(c);
@@ -594,6 +602,8 @@ pub fn run(ctx: &Ctx) -> Result<Run, String> {
     });
     let mut stats = stats;
     stats.merge(st2);
+    stats.count("instance_differential_histories", inst_stats.evaluations);
+    stats.merge(inst_stats);
     // the credential shown to the user is the one that signs – also by KEY: credentials with the same
     // id and different keys (other instances on the thread; an entry replaced under a long-lived one)
     stats.merge(super::inst::colliding_sweep("shared-state"));
@@ -616,6 +626,9 @@ pub fn run(ctx: &Ctx) -> Result<Run, String> {
 }
 
 pub fn replay(_ctx: &Ctx, case: &Value) -> Result<Vec<Finding>, String> {
+    if let Some(fs) = super::inst::replay(case, "instance") {
+        return Ok(fs);
+    }
     if let Some(fs) = super::inst::colliding_replay(case, "shared-state") {
         return Ok(fs);
     }
